@@ -27,7 +27,7 @@ CHECKS = {
  "C05": dict(level="exploration", sec="4 C05", tech="runtime monitoring: identity-tagged objects with a location map (task level), thread-level one-preemption sweep and chaos with conservation/capacity probe at rest, full-speed race rounds incl. race-proof regimes (never empty / never full / contended timed gets); pools of up to 70 000 slots; hang watchdog",
    text="Every object carries an id and a logged destructor; a location map (in pool / held / handed back) is updated only from observed call results, so loss, duplication, a wrong try_add/add verdict, stranded callers and wrong status() figures at rest are visible. Real threads are parked at every schedule point of the unmanaged pool while one racing operation runs.",
    note="Exactness clauses (try_add reports Timeout exactly while full) are only judged where the order of events is total (task level)."),
- "C06": dict(level="exploration", sec="4 C06", tech="runtime monitoring: close() inserted at random points of task-level histories + thread-level close sweep; destructor/detach log and call results",
+ "C06": dict(level="exploration", sec="4 C06", tech="runtime monitoring: close() inserted at random points of task-level histories + thread-level close sweep; destructor/detach log and call results; full-speed race rounds with close(); feedback-aligned race of the last Pool handle being dropped against objects in use; hang watchdog",
    text="close() at a random point of random histories with getters in every phase; afterwards admission, blocked getters, idle objects, returns, resize, status and objects outliving the pool are checked from call results and the destructor log.",
    note="A getter already admitted at close may finish with an object; it is checked to be discarded on return."),
  "C07": dict(level="exploration", sec="4 C07", tech="runtime monitoring: admission monitor against the resize log in totally ordered task-level histories; capacity probe",
@@ -42,7 +42,7 @@ CHECKS = {
  "C10": dict(level="fault_enumeration", sec="4 C10", tech="runtime monitoring: complete table of directed timeout scenarios on tokio's paused clock compared with a reference outcome table, random timing histories, and real-clock timeout scenarios for both runtimes (Tokio1, AsyncStd1)",
    text="The finite table runtime x (wait, create, recycle) in {none, zero, finite}^3 x ordering of 'deadline passes' against 'slot freed' / 'step finishes' is executed completely against the real pool on the virtual clock (2700 managed scenarios, 54 build() cases, 60 unmanaged scenarios); each result is compared with the documented outcome, accepting both where the documentation leaves the case open.",
    note="Runtime::AsyncStd1 has no virtual clock: it is driven by the real-clock scenarios only (rt_real: 'not before the deadline', result kind, pool state afterwards; 'too late' is inconclusive)."),
- "C11": dict(level="exploration", sec="4 C11", tech="runtime monitoring: status() sampled after every director action against ground truth (exact at quiescence, range checks otherwise), managed and unmanaged pool",
+ "C11": dict(level="exploration", sec="4 C11", tech="runtime monitoring: status() sampled after every director action against ground truth (exact at quiescence, range checks otherwise), managed and unmanaged pool; race-proof sampler during full-speed rounds; figures of a closed pool at rest after feedback-aligned close() races",
    text="status() is sampled after every action: exact equality with ground truth at quiescent points, plausibility bounds in between.",
    note="Thread-level sampling uses monotone bounds only."),
  "C12": dict(level="exploration", sec="4 C12", tech="runtime monitoring: panic capture + thread-level one-preemption sweep of close() against every unmanaged operation at every schedule point; task-level histories continuing after close; full-speed race rounds (waiting figure of the closed pool at rest); hang watchdog (a repeated hang is a violation)",
@@ -51,19 +51,19 @@ CHECKS = {
  "C13": dict(level="exploration", sec="4 C13", tech="runtime monitoring: per-object hand-out counter compared with Metrics at every callback, hand-out and retain",
    text="Long single-pool histories; the harness's own per-object hand-out counter and last reported instants are compared with the Metrics seen by hooks, recycle, retain and Object::metrics().",
    note="Instants are real (std) instants; only ordering is checked."),
- "C14": dict(level="exploration", sec="4 C14", engine="sync", tech="runtime monitoring: thread-identity and sequence stamps recorded by closures and by the wrapped value's destructor on a multi-thread tokio runtime, the wrapper's own runtime being Tokio1 or AsyncStd1; 'is blocking allowed here' probed with Handle::block_on; second pass against the crates built with the tracing feature; drop-race trials under feedback control; zero-sized value engine",
+ "C14": dict(level="exploration", sec="4 C14", engine="sync", tech="runtime monitoring: thread-identity and sequence stamps recorded by closures and by the wrapped value's destructor on a multi-thread tokio runtime, the wrapper's own runtime being Tokio1 or AsyncStd1; 'is blocking allowed here' probed with Handle::block_on; second pass against the crates built with the tracing feature; drop-race trials under feedback control; zero-sized value engine; all-enabling tracing subscriber in the feature variant; Debug of the wrapper while a closure owns the value",
    text="Random histories of interact calls (completing, panicking, cancelled before the closure starts, cancelled while it is parked on a gate) followed by dropping the wrapper at a random moment on an async worker thread; constructor, closures and destructor record thread id, a global sequence number and whether tokio allows blocking on that thread; the destructor must run exactly once, off every thread that polls async tasks, after the end stamp of every closure that used the value.",
    note="Runtime shutdown and dropping a wrapper outside a runtime are outside the property's quantifier."),
  "C15": dict(level="exploration", sec="4 C15", engine="sync", tech="runtime monitoring: per-connection identity marker (PRAGMA user_version / serial number) read at every hand-out and compared with the set of poisoned / broken connections; capacity probe; pools on Tokio1 and AsyncStd1; second pass against the crates built with the tracing feature",
    text="Random histories of gets, interactions (ok / panic / cancelled), 'broken' markings (open transaction, has_broken, is_valid, scripted check function, failing custom query) and returns over real sqlite, r2d2 (scripted ManageConnection) and diesel-sqlite pools; every connection carries an identity marker that is read at every hand-out; at the end the full capacity must be served with healthy connections.",
    note="sqlite is the system libsqlite3 with :memory: databases; mysql/postgres diesel backends are not driven."),
- "C16": dict(level="exploration", sec="4 C16", engine="pg", tech="runtime monitoring: scripted PostgreSQL wire server (in-memory duplex per connection) logging every frontend message; client identity probe at every hand-out; cache/registry model; clear() from a second OS thread against prepares and against take()",
+ "C16": dict(level="exploration", sec="4 C16", engine="pg", tech="runtime monitoring: scripted PostgreSQL wire server (in-memory duplex per connection) logging every frontend message; client identity probe at every hand-out; cache/registry model; clear() from a second OS thread against prepares and against take(); pools built from a Config over a unix socket; post_create hook that rejects clients while the harness keeps their cache handle",
    text="The real tokio-postgres client talks to a scripted v3-protocol server through Manager::from_connect. The server's per-connection message log decides which check was issued between two hand-outs, on which connection a statement was parsed (and with which parameter types) and whether a cache hit caused traffic; the harness kills connections and fails checks at scripted points and tracks which clients the pool owns for the registry clauses.",
    note="No TLS, no real server; type resolution beyond built-in OIDs is not driven."),
  "C18": dict(level="exploration", sec="4 C18", engine="pg", tech="runtime monitoring: generated Config values checked against an independent reference translation through tokio_postgres::Config getters; built pools observed against a scripted server on a loopback port",
    text="Every field of Config is set/unset independently with hostile textual values, URLs in both syntaxes (valid and invalid), every enum variant, USER set and unset; get_pg_config() is compared option by option with a reference translation, panics are violations. create_pool() results are observed on the built pool: max_size, timeouts, queue mode (order of reuse) and recycling method (check query seen by the server), and the missing-runtime build error.",
    note="The URL grammar itself is tokio-postgres's; the reference uses the same parser for the URL part only."),
- "C17": dict(level="exploration", sec="4 C17", engine="redis", tech="runtime monitoring: scripted RESP server (unix domain socket) with per-connection command log and WATCH flag; scripted answers to the recycle PING (stale / look-alike / well-known / malformed replies, every error code); identity probe at hand-out; full-speed recycles on a multi-thread runtime with pairwise-distinct PING values",
+ "C17": dict(level="exploration", sec="4 C17", engine="redis", tech="runtime monitoring: scripted RESP server (unix domain socket) with per-connection command log and WATCH flag; scripted answers to the recycle PING (stale / look-alike / well-known / malformed replies, every error code); identity probe at hand-out; full-speed recycles on a multi-thread runtime with pairwise-distinct PING values; pool settings through builder setters or the Config's pool section; gets polled under catch_unwind",
    text="The real redis-rs multiplexed client talks to a scripted RESP server. At every hand-out of a reused connection the server's log for that connection must show exactly UNWATCH then PING <v> since the return, v must be new for the pool, the echo must have been correct and no WATCH state may be left; a connection whose PING got a stale / wrong value, an error, a disconnect or silence must never be handed out again; Connection::take is checked through status() and the server log.",
    note="Loopback TCP only; cluster and sentinel pools are not covered by this property."),
  "C19": dict(level="exploration", sec="4 C19", engine="redis", tech="runtime monitoring: generated configs against rule oracle and redis crate parser; field-wise conversion checks; serde_json and config::Environment round trips; scripted RESP listeners observe which servers are contacted (default local server for the standalone, cluster and sentinel flavours) and with which AUTH/HELLO/SELECT",
